@@ -134,10 +134,11 @@ def run_sched_case(rng, res, idx, maxlen):
                 return
 
 
-def run_expdecay_case(rng, res, idx, kmax):
+def run_expdecay_case(rng, res, idx, kmax, cap=None):
     from kfac.hyperparams import exp_decay_factor_averaging
 
-    cap = math.exp(rng.uniform(math.log(1e-6), math.log(2.0))) if idx % 5 else rng.choice([0.95, 1.0, 0.5, 2.0, 1e-9])
+    if cap is None:
+        cap = math.exp(rng.uniform(math.log(1e-6), math.log(2.0))) if idx % 5 else rng.choice([0.95, 1.0, 0.5, 2.0, 1e-9])
     f = exp_decay_factor_averaging(cap)
     prev = None
     for k in list(range(0, kmax)) + [10 ** 4, 10 ** 6, 10 ** 9 + rng.randint(0, 1000)]:
@@ -189,6 +190,8 @@ def run_shard(spec, res):
 def replay(case, res):
     import os
     seed = int(os.environ.get('VERIF_SEED', '0'))
-    if 'idx' in case:
+    if 'cap' in case:
+        run_expdecay_case(case_rng(seed, ID, 0, 'exp'), res, 0, 2000, cap=float(case['cap']))
+    elif 'idx' in case:
         for ml in (30, 60):
             run_sched_case(case_rng(seed, ID, case['idx']), res, case['idx'], ml)
